@@ -85,6 +85,26 @@ def replay(model, obligation):
         live = [e[1] for e in log2 if e[0] == 'timer' and not e[1].cancelled]
         if len(live) != 1 or abs(live[0].delay - 1.0) > 1e-6:
             fails.append('speculative delay 3.0 >= timeout 1.0: live timers %r (expected one at 1.0)' % [t.delay for t in live])
+        # a speculative execution that finds the plan exhausted (more attempts allowed than hosts, servers silent): the future must stay armed
+        log4 = []
+        plan4 = ConstantSpeculativeExecutionPolicy(0.1, 5).new_plan('ks', None)
+        f4 = rf.future(cl, rf.Session(log4, {h1: rf.Pool(log4, h1)}), [h1], timeout=1.0, spec_plan=plan4)
+        f4.send_request()
+        done4 = []
+        f4.add_callbacks(done4.append, done4.append)
+        for _ in range(4):
+            pend = [e[1] for e in log4 if e[0] == 'timer' and not e[1].cancelled and not getattr(e[1], 'fired', False)]
+            if done4 or not pend:
+                break
+            t = pend[-1]
+            if getattr(t.cb, '__name__', '') != '_on_speculative_execute':
+                break
+            t.fired = True
+            clock[0] += t.delay
+            t.cb()
+        pend = [e[1] for e in log4 if e[0] == 'timer' and not e[1].cancelled and not getattr(e[1], 'fired', False)]
+        if not done4 and not pend:
+            fails.append('speculative executions over an exhausted one-host plan, servers silent: the request is neither completed nor has a pending timer (it can never time out)')
         # _on_timeout before any connection: at most 3 reschedules, then completion
         log3 = []
         f3 = rf.future(cl, rf.Session(log3, {}), [], timeout=1.0)
